@@ -4,7 +4,8 @@ import os
 from contracts.c01_programs import ProgramsContract, catalogue
 from contracts.c03_symbols import CONTRACTS as SYMBOL_CONTRACTS  # combine + build_model_definition header
 from contracts.c05_solve import SolveContract
-from props.parser_bounded import Classification
+from contracts.c15_templates import TemplateLemma
+from props.parser_bounded import Classification, TokeniserDifferential
 from verif.crosscheck import TARGETS as _XT, EncoderCrossCheck
 from contracts.c01_tokeniser import TokeniserLemma
 from verif.spec import PropertySpec
@@ -14,8 +15,8 @@ _seed = int(os.environ.get('VERIF_SEED', '0'))
 
 PROPERTY = PropertySpec(
     id='C03',
-    contracts=list(SYMBOL_CONTRACTS) + [SolveContract(), ProgramsContract(catalogue(_tier, _seed)), TokeniserLemma()],
-    bounded=[Classification()],
+    contracts=list(SYMBOL_CONTRACTS) + [SolveContract(), ProgramsContract(catalogue(_tier, _seed)), TokeniserLemma(), TemplateLemma()],
+    bounded=[Classification(), TokeniserDifferential()],
     level='other',
     explanation='Symbol.combine proved for all inputs (every dynamic type of lags/leads/equation/code, every type pair): stronger of the two '
                 'variable kinds, deepest lag / furthest lead with 0, SymbolError / ParserError exactly for the conflicting cases. Default range '
